@@ -88,6 +88,28 @@ def step (d : DSt) (line : String) : DSt × String :=
     match dl.toInt?, e.toInt? with
     | some dl, some e => ({ d with s := stepInc d.cfg d.s k dl e }, "ok")
     | _, _ => (d, "bad-op")
+  | ["race", idx, ord] =>
+    match slotOf idx with
+    | none => (d, "bad-op")
+    | some sl =>
+      if ord != "asc" && ord != "desc" then (d, "bad-op") else
+      let q : Query := { slot := sl, asc := ord == "asc", from_ := 0, limit := 0, fromT := none, toT := none }
+      match answerSecond d.cfg d.s q, answer d.cfg d.s q with
+      | some r2, some r1 =>
+        let early := !(d.s.pairs (phys d.cfg q.slot)).init && !d.cfg.initialisedAfterFill
+        let s' := stepBuild d.cfg d.s q
+        let p := s'.pairs (phys d.cfg q.slot)
+        let d' := { d with s := s' }
+        if p.nd || p.broken then
+          (d', "nd" ++ flagStr (findingOf d.cfg q s'.store (if p.broken then "mixed" :: p.causes else p.causes)))
+        else
+          let fl2 := if specOk r2 q s'.store then [] else
+            (if early then ["C07-first-readers-race"] else
+              match findingOf d.cfg q s'.store p.causes with | [] => ["C07-unexplained"] | fs => fs)
+          let fl1 := if specOk r1 q s'.store then [] else
+            (match findingOf d.cfg q s'.store p.causes with | [] => ["C07-unexplained"] | fs => fs)
+          (d', "r2=" ++ ",".intercalate (r2.map (·.key)) ++ " r1=" ++ ",".intercalate (r1.map (·.key)) ++ flagStr (fl2 ++ fl1).eraseDups)
+      | _, _ => (d, "r2=err noswamp r1=err noswamp")
   | ["shiftexp"] =>
     if d.s.store.isEmpty then (d, "err noswamp") else
     let l := shiftList d.cfg d.s
@@ -139,7 +161,8 @@ def run (args : List String) : IO UInt32 := do
     updRefreshCreated := yes kv "updRefreshCreated", updRefreshUpdated := yes kv "updRefreshUpdated",
     updRefreshValue := yes kv "updRefreshValue", updRefreshExpireOnFlag := yes kv "updRefreshExpireOnFlag",
     typeChangeDetected := yes kv "typeChangeDetected", valueShared := yes kv "valueShared",
-    flagsSticky := yes kv "flagsSticky", setVoidClearsTyped := yes kv "setVoidClearsTyped" }
+    flagsSticky := yes kv "flagsSticky", setVoidClearsTyped := yes kv "setVoidClearsTyped",
+    initialisedAfterFill := yes kv "initialisedAfterFill" }
   lineLoop step { cfg := cfg, s := St.init }
   return 0
 
